@@ -546,6 +546,21 @@ func (x *exec) unit(u Unit) {
 	}
 }
 
+func hasKind(t *T, k Kind) bool {
+	if t.Kind == k {
+		return true
+	}
+	if t.Elem != nil && hasKind(t.Elem, k) {
+		return true
+	}
+	for _, f := range t.Fields {
+		if hasKind(f.T, k) {
+			return true
+		}
+	}
+	return false
+}
+
 func (x *exec) zeroValue(u Unit, e *entry, t *T) {
 	def := Default(t)
 	want, err := Parse(t, def)
@@ -557,8 +572,14 @@ func (x *exec) zeroValue(u Unit, e *entry, t *T) {
 	z := lib{x.spec, e.Alloc()}
 	var out bytes.Buffer
 	var serr error
+	sameBytes := true
 	if p := guard(func() { serr = z.serialize(&out) }); p != "" || serr != nil || !bytes.Equal(out.Bytes(), def) {
-		// the zero Go value is not a value of the type (nil where a vector is expected, ...): no verdict
+		sameBytes = false
+	}
+	// A nil slice cannot stand for a vector of N elements, so a zero Go value whose type holds a vector
+	// only counts when it really encodes as the default value. Everything else (nil lists = empty lists,
+	// nil bitfields, which the library hashes as unset bits) denotes the default value.
+	if !sameBytes && hasKind(t, KVector) {
 		x.res.Stat("zero_values_not_the_default/"+u.Type, 1)
 		return
 	}
@@ -573,7 +594,7 @@ func (x *exec) zeroValue(u Unit, e *entry, t *T) {
 		x.viol("C05", "zero-value-root/"+u.Type, fmt.Sprintf("%s (%s): the zero value serializes as the default value (%d bytes), but its struct HashTreeRoot is %s and the default value's root by the specification's schema is %x", u.Type, x.presetName(), len(def), r, want))
 		return
 	}
-	if bl, has := z.byteLength(); has && bl != uint64(len(def)) {
+	if bl, has := z.byteLength(); sameBytes && has && bl != uint64(len(def)) {
 		x.viol("C04", "zero-value-byte-length/"+u.Type, fmt.Sprintf("%s: the zero value reports ByteLength %d and writes %d bytes", u.Type, bl, len(def)))
 	}
 }
